@@ -167,8 +167,50 @@ pub enum ReadMode {
     Vectored(usize),
 }
 
+/// which of the library's write interfaces the sending task uses
+#[derive(Clone, Copy, Debug, PartialEq)]
+pub enum WriteApi {
+    /// SendStream::send(Bytes)
+    Send,
+    /// SendStream::send_vectored(&mut [Bytes]) with up to this many chunks
+    SendVectored(usize),
+    /// futures::Sink<Bytes>
+    Sink,
+    /// futures::io::AsyncWrite::write
+    FutWrite,
+    /// futures::io::AsyncWrite::write_vectored with this many buffers
+    FutWriteVectored(usize),
+    /// tokio::io::AsyncWrite::write
+    TokioWrite,
+    /// tokio::io::AsyncWrite::write_vectored with this many buffers
+    TokioWriteVectored(usize),
+}
+
+/// which of the library's read interfaces the receiving task uses
+#[derive(Clone, Copy, Debug, PartialEq)]
+pub enum ReadApi {
+    /// ReceiveStream::receive()
+    Receive,
+    /// ReceiveStream::receive_vectored with this many slots
+    ReceiveVectored(usize),
+    /// futures::Stream::next
+    StreamNext,
+    /// futures::io::AsyncRead::read into a buffer of this size
+    FutRead(usize),
+    /// futures::io::AsyncRead::read_vectored into (count, size) buffers
+    FutReadVectored(usize, usize),
+    /// tokio::io::AsyncRead::read into a buffer of this size
+    TokioRead(usize),
+}
+
 #[derive(Clone, Debug)]
 pub struct FlowPlan {
+    pub write_api: WriteApi,
+    pub read_api: ReadApi,
+    /// pause this long before every `read_pause_every`-th read call (0: never), so that data
+    /// (and the FIN) pile up in the receive buffer before the application asks for it
+    pub read_pause_us: u64,
+    pub read_pause_every: u32,
     pub len: u64,
     pub chunk_lo: usize,
     pub chunk_hi: usize,
@@ -345,6 +387,10 @@ pub fn gen_flow(r: &mut Rng, max_len: u64, hostile_app: bool) -> FlowPlan {
         },
     };
     FlowPlan {
+        write_api: WriteApi::Send,
+        read_api: ReadApi::Receive,
+        read_pause_us: 0,
+        read_pause_every: 0,
         len,
         chunk_lo,
         chunk_hi,
@@ -354,6 +400,57 @@ pub fn gen_flow(r: &mut Rng, max_len: u64, hostile_app: bool) -> FlowPlan {
         end,
         read,
     }
+}
+
+/// spread a flow over the library's read/write interfaces (own rng: scenario generation of
+/// the profiles that do not ask for it stays as it was)
+pub fn diversify_api(r: &mut Rng, f: &mut FlowPlan) {
+    f.write_api = match r.below(10) {
+        0 | 1 | 2 => WriteApi::Send,
+        3 => WriteApi::SendVectored(r.range(1, 6) as usize),
+        4 => WriteApi::Sink,
+        5 => WriteApi::FutWrite,
+        6 => WriteApi::FutWriteVectored(r.range(1, 6) as usize),
+        7 => WriteApi::TokioWrite,
+        _ => WriteApi::TokioWriteVectored(r.range(2, 6) as usize),
+    };
+    if matches!(f.read, ReadMode::Plain | ReadMode::Slow { .. }) {
+        f.read_api = match r.below(10) {
+            0 | 1 | 2 => ReadApi::Receive,
+            3 | 4 => ReadApi::ReceiveVectored(r.range(1, 8) as usize),
+            5 => ReadApi::StreamNext,
+            6 => ReadApi::FutRead(*r.pick(&[1usize, 7, 100, 1500, 5000, 70_000])),
+            7 => ReadApi::FutReadVectored(r.range(1, 5) as usize, *r.pick(&[1usize, 64, 1200, 9000])),
+            _ => ReadApi::TokioRead(*r.pick(&[1usize, 7, 100, 1500, 5000, 70_000])),
+        };
+    }
+    if r.chance(1, 3) {
+        // a reader slower than the network: the receive buffer holds many chunks (and the
+        // end of the stream) by the time it is asked
+        f.read_pause_every = r.range(1, 4) as u32;
+        f.read_pause_us = if f.len > 200_000 { r.range(100, 3_000) } else { r.range(1_000, 60_000) };
+    }
+    limit_reader_time(f);
+}
+
+/// The reader's own think time must stay far below every timeout of the scenario: it is
+/// application time, not transport time. Keeps the sum of all pauses of a flow under ~1.5 s.
+pub fn limit_reader_time(f: &mut FlowPlan) {
+    let per_read = match f.read_api {
+        ReadApi::FutRead(sz) | ReadApi::TokioRead(sz) => sz.min(1200),
+        ReadApi::FutReadVectored(k, sz) => (k * sz).min(1200),
+        _ => 1200,
+    }
+    .max(1) as u64;
+    if let ReadMode::Slow { every, us } = &mut f.read {
+        let pauses = (f.len / per_read + 1) / (*every).max(1) as u64 + 1;
+        *us = (*us).min(1_500_000 / pauses).max(1);
+    }
+    if f.read_pause_every == 0 || f.read_pause_us == 0 {
+        return;
+    }
+    let pauses = (f.len / per_read + 1) / f.read_pause_every as u64 + 1;
+    f.read_pause_us = f.read_pause_us.min(1_500_000 / pauses).max(1);
 }
 
 pub fn gen_stream(r: &mut Rng, by_server: bool, max_len: u64, hostile_app: bool) -> StreamPlan {
